@@ -183,7 +183,7 @@ func (ex *Exec) assert(cond Value, msgV Value) {
 		panic(pathEnd{kind: "violated", msg: msg})
 	case *Term:
 		nc := ex.ts.Not(c)
-		switch ex.feasible(nc) {
+		switch ex.feasibleSMT(nc) {
 		case Unsat:
 			ex.addPC(c)
 			return
